@@ -3,5 +3,6 @@ CONSTANTS
   MaxLen = 8
   BackslashSep = FALSE
   RandMax = 40
+  PadMax = 0
 INIT GenInit
 NEXT GenNext
